@@ -278,7 +278,9 @@ func c04RunEdits(r *core.Run) {
 			texts[j] = t.Text
 		}
 		// whitespace: one character at every gap (keeping the original spacing elsewhere), and at all gaps at once
-		for _, ws := range []string{" ", "\t", "\n", "\r"} {
+		// the four whitespace characters of the grammar, and look-alikes that are NOT whitespace (form feed,
+		// vertical tab, no-break space, line separator, byte order mark): the latter must be rejected
+		for _, ws := range []string{" ", "\t", "\n", "\r", "\f", "\v", "\u00a0", "\u2028", "\ufeff", "\x00"} {
 			for j := 0; j <= len(toks); j++ {
 				pos := len(e)
 				if j < len(toks) {
